@@ -628,19 +628,26 @@ theorem readProp_of_propAt (c : VlenCodec) (s : St) (pre : Path) (k : String) (p
   rw [hg, eV, hv, eM, hm, eD, hd]
   cases p.missing <;> cases d <;> rfl
 
+theorem castOpt_ok (d : Dtype) (o : Option NdArr) (h : ∀ m, o = some m → castTo d m = .ok m) : castOpt d o = .ok o := by
+  unfold castOpt
+  cases o with
+  | none => rfl
+  | some m => simp only [h m rfl, bind, Except.bind, pure, Except.pure]
+
 theorem loadPropToMemory_written (c : VlenCodec) (hc : c.Lawful) (name : String) (p : PropArr)
     (hw : Writable name p) (v : NdArr) (d : Option NdArr) (he : encodeProp c (upcast p) = .ok (v, d))
     (pm : PropMeta) (hdt : pm.dtype = (dtypeOfProp p).name) (hvl : pm.varlength = some (isVarlen p)) :
     loadPropToMemory c ⟨v, (upcast p).missing, d⟩ pm = .ok (upcast p) := by
   obtain ⟨_, hmiss, hv⟩ := hw
-  have hmcast : ∀ m, (upcast p).missing = some m → castTo .bool m = .ok m := by
+  have hmopt : castOpt .bool (upcast p).missing = .ok (upcast p).missing := by
+    apply castOpt_ok
     intro m hm
     rw [upcast_missing] at hm
     have := hmiss m hm
     rw [← this]; exact castTo_self m
   unfold loadPropToMemory
   rw [hdt, Dtype.ofName_name, hvl]
-  simp only [Option.getD_some, bind, Except.bind, pure, Except.pure]
+  simp only [Option.getD_some, bind, Except.bind, pure, Except.pure, hmopt]
   cases hval : p.values with
   | dense a =>
     have hnv : isVarlen p = false := by unfold isVarlen; rw [hval]
@@ -655,20 +662,9 @@ theorem loadPropToMemory_written (c : VlenCodec) (hc : c.Lawful) (name : String)
       simp only [pure, Except.pure, Except.ok.injEq, Prod.mk.injEq] at he
       exact ⟨he.1.symm, he.2.symm⟩
     rw [hnv, hdt', hvd.1, hvd.2]
-    simp only [Bool.false_eq_true, if_false, castTo_self]
-    cases hm : (upcast p).missing with
-    | none =>
-      simp only []
-      have : upcast p = ⟨.dense a', none⟩ := by
-        cases hu : upcast p with
-        | mk vals miss => rw [hu] at ha' hm; simp only at ha' hm; rw [ha', hm]
-      rw [this]
-    | some m =>
-      simp only [hmcast m hm]
-      have : upcast p = ⟨.dense a', some m⟩ := by
-        cases hu : upcast p with
-        | mk vals miss => rw [hu] at ha' hm; simp only at ha' hm; rw [ha', hm]
-      rw [this]
+    simp only [Bool.false_eq_true, if_false, castTo_self, castOpt, pure, Except.pure]
+    cases hu : upcast p with
+    | mk vals miss => rw [hu] at ha'; simp only at ha'; rw [ha']
   | obj es =>
     rw [hval] at hv
     obtain ⟨hwf, hh, _⟩ := hv
@@ -681,20 +677,12 @@ theorem loadPropToMemory_written (c : VlenCodec) (hc : c.Lawful) (name : String)
       simp only [henc, bind, Except.bind, pure, Except.pure, Except.ok.injEq, Prod.mk.injEq] at he
       exact ⟨he.1.symm, he.2.symm⟩
     rw [hvl', hdt', hvd.1, hvd.2, hup]
-    simp only [if_true]
     have c1 : castTo .u64 v' = .ok v' := by rw [← hvdt]; exact castTo_self v'
-    have c2 : castTo (elemDtype es) d' = .ok d' := by rw [← hddt]; exact castTo_self d'
-    rw [c1, c2]
-    rw [hup] at hmcast
-    cases hm : p.missing with
-    | none =>
-      simp only [hdec]
-      cases hu : p with
-      | mk vals miss => rw [hu] at hval hm; simp only at hval hm; rw [hval, hm]
-    | some m =>
-      simp only [hmcast m hm, hdec]
-      cases hu : p with
-      | mk vals miss => rw [hu] at hval hm; simp only at hval hm; rw [hval, hm]
+    have c2 : castOpt (elemDtype es) (some d') = .ok (some d') := by
+      apply castOpt_ok; intro m hm; cases hm; rw [← hddt]; exact castTo_self d'
+    simp only [if_true, c1, c2, hdec]
+    cases hu : p with
+    | mk vals miss => rw [hu] at hval; simp only at hval; rw [hval]
 
 /-- reading one of the groups `nodes` / `edges` of a written store gives back the stored properties -/
 theorem readGroup_written (c : VlenCodec) (hc : c.Lawful) (s : St) (grp : String) (ps : Props)
@@ -907,7 +895,7 @@ theorem forM_ok {α} (f : α → Outcome Unit) (l : List α) (h : ∀ x ∈ l, f
 
 /-- the rows of a property line up with `n` graph elements -/
 def RowsOK (n : Nat) (p : PropArr) : Prop :=
-  (∀ m, p.missing = some m → m.shape = [n] ∧ m.WF) ∧
+  (∀ m, p.missing = some m → m.shape = [n] ∧ m.WF ∧ ∀ v ∈ m.flat, ∃ x, v = .b x) ∧
   match p.values with
   | .dense a => a.shape.head? = some n ∧ a.WF
   | .obj es => es.length = n
